@@ -124,8 +124,19 @@ BUILTIN_EXC_BASES = {
 
 
 class Model:
-    def __init__(self, root: Optional[str] = None, packages: Tuple[str, ...] = ("pdfminer",)) -> None:
+    def __init__(
+        self,
+        root: Optional[str] = None,
+        packages: Tuple[str, ...] = ("pdfminer",),
+        overrides: Optional[Dict[str, str]] = None,
+        reuse: Optional["Model"] = None,
+    ) -> None:
+        """overrides: relpath -> source text replacing the file on disk (seeded variants are analysed
+        as source text; nothing is written or executed).  reuse: a model of the same root whose parsed
+        trees are shared for files without an override."""
         self.root = root or repo_root()
+        self.overrides = dict(overrides or {})
+        self._reuse = reuse
         self.modules: Dict[str, ModuleInfo] = {}
         self.classes: Dict[str, ClassInfo] = {}
         self.funcs: Dict[str, FuncInfo] = {}
@@ -152,9 +163,16 @@ class Model:
                 modname = rel[:-3].replace(os.sep, ".")
                 if modname.endswith(".__init__"):
                     modname = modname[: -len(".__init__")]
-                with open(path, "r", encoding="utf-8") as f:
-                    src = f.read()
-                tree = ast.parse(src, filename=path)
+                if rel in self.overrides:
+                    src = self.overrides[rel]
+                    tree = ast.parse(src, filename=path)
+                elif self._reuse is not None and modname in self._reuse.modules and rel not in self._reuse.overrides:
+                    old = self._reuse.modules[modname]
+                    src, tree = old.src, old.tree
+                else:
+                    with open(path, "r", encoding="utf-8") as f:
+                        src = f.read()
+                    tree = ast.parse(src, filename=path)
                 self.modules[modname] = ModuleInfo(modname, path, rel, src, tree)
 
     def _index_module(self, m: ModuleInfo) -> None:
@@ -227,6 +245,16 @@ class Model:
             elif isinstance(sub, ast.ClassDef):
                 self._index_class(m, sub, f"{qn}.{sub.name}", None)
         return fi
+
+    def read_text(self, rel: str) -> str:
+        """Text of a repository file (honours overrides)."""
+        if rel in self.overrides:
+            return self.overrides[rel]
+        path = os.path.join(self.root, rel)
+        if not os.path.exists(path):
+            raise AnchorMissing(f"file {rel} not found")
+        with open(path, "r", encoding="utf-8") as f:
+            return f.read()
 
     # ---------------------------------------------------------------- lookups
     def module(self, name: str) -> ModuleInfo:
